@@ -34,6 +34,7 @@ class FS:
         self.dirs = set()
         self.step = 0
         self.crash_at = -1
+        self.writers = []
 
     def tick(self):
         if self.step == self.crash_at:
@@ -42,22 +43,37 @@ class FS:
 
 
 class _WFile:
+    """a text file opened for writing: write() fills the process's buffer; the data reaches the file when the
+    buffer is flushed at close (json.dump output of these stores is far below the 8 KiB buffer).  A rename of
+    the open file moves it (POSIX): data flushed later lands under the new name."""
+
     def __init__(self, fs, name):
-        self.fs, self.name = fs, name
+        self.fs, self.name, self.buf = fs, name, ''
         fs.tick()
         fs.files[name] = ''
+        fs.writers.append(self)
 
     def write(self, s):
         self.fs.tick()
-        self.fs.files[self.name] += s
+        self.buf += s
         return len(s)
+
+    def flush(self):
+        self.fs.tick()
+        self.fs.files[self.name] += self.buf
+        self.buf = ''
+
+    def close(self):
+        self.flush()
+        if self in self.fs.writers:
+            self.fs.writers.remove(self)
 
     def __enter__(self):
         return self
 
     def __exit__(self, *a):
         if a[0] is None:
-            self.fs.tick()        # close
+            self.close()
         return False
 
 
@@ -80,6 +96,9 @@ class _OS:
     def replace(self, src, dst):
         self.fs.tick()
         self.fs.files[str(dst)] = self.fs.files.pop(str(src))
+        for w in self.fs.writers:
+            if w.name == str(src):
+                w.name = str(dst)
 
 
 def install(fs):
@@ -183,9 +202,9 @@ def _effective_ns(model, which):
     return bk.JsonKeyStore.DEFAULT_NAMESPACE
 
 
-def _apply(fs, model, kind, which, peer, v):
-    """apply one operation through a FRESH store instance (re-opening the file) and to the reference model"""
-    s = store(fs, NS[which])
+def _apply(fs, model, kind, which, peer, v, stores=None):
+    """apply one operation through a FRESH store instance (re-opening the file) - or through the given live instance - and to the reference model"""
+    s = stores[which] if stores else store(fs, NS[which])
     ns = _effective_ns(model, which)
     name = ['peer0', 'peer1'][peer]
     if kind == 0:
@@ -246,6 +265,47 @@ def _two_operations_concrete(p1, v1, k2, w2, p2, v2, k1, w1, init):
         return False
     _apply(fs, model, k2, w2, p2, v2)
     return _check(fs, model)
+
+
+def _canary_cached_db():
+    orig = bk.JsonKeyStore.load
+
+    async def load(self):
+        if not hasattr(self, '_vf_cache'):
+            self._vf_cache = await orig(self)
+        return self._vf_cache
+    bk.JsonKeyStore.load = load
+
+
+@harness(pre=['0 <= w1 <= 2 and 0 <= k2 <= 2 and 0 <= w2 <= 2 and 0 <= k3 <= 2 and 0 <= w3 <= 2 and 0 <= p <= 1 and 0 <= v <= 3'], family='semantics', twin=True, kernels=K, timeout=(90, 300),
+         grid={'k1': [0, 1, 2], 'init': [0, 1, 2]}, canaries=[('database-cached-per-instance', _canary_cached_db)],
+         bounds='three LIVE store instances (AA, BB, default namespace) on one file, each primed with a read; a program of three operations {update, delete, delete_all} issued through those same instances in any interleaving (stores symbolic, first kind per condition): afterwards the live instances and freshly opened ones all return exactly the reference model')
+def live_instances(w1: int, k2: int, w2: int, k3: int, w3: int, p: int, v: int, k1: int, init: int) -> bool:
+    w1, k2, w2, k3, w3, p, v = C(w1, 0, 2), C(k2, 0, 2), C(w2, 0, 2), C(k3, 0, 2), C(w3, 0, 2), C(p, 0, 1), C(v, 0, 3)
+    with untraced():
+        fs = FS()
+        install(fs)
+        model = {}
+        if init >= 1:
+            model['AA:AA'] = {'peer0': canon(variant(1).to_dict())}
+        if init == 2:
+            model['BB:BB'] = {'peer1': canon(variant(2).to_dict())}
+        if init:
+            fs.files[PATH] = json.dumps(model, sort_keys=True, indent=4)
+            fs.dirs.add('/x')
+        stores = [store(fs, NS[w]) for w in (0, 1, 2)]
+        for st in stores:
+            run(st.get_all())
+        for kind, which, peer, var in ((k1, w1, p, v), (k2, w2, 1 - p, (v + 1) % 4), (k3, w3, p, (v + 2) % 4)):
+            _apply(fs, model, kind, which, peer, var, stores)
+            if not _check(fs, model):
+                return False
+            for w in (0, 1, 2):
+                ns = _effective_ns(model, w)
+                want = {n: bk.PairingKeys.from_dict(d) for n, d in model.get(ns, {}).items()}
+                if dict(run(stores[w].get_all())) != want:
+                    return False
+        return True
 
 
 # ------------------------------------------------------------------------------------------
